@@ -7,6 +7,7 @@
 //!   produce <nout> <nerr> <gate> <status> <corrupt>  counter stream to stdout, then to stderr,
 //!                                                    then (gate=1) wait for EOF on stdin, finish
 //!   exit <gate> <status>                             (gate=1) wait for EOF on stdin, finish
+//!   gated_produce <nout> <status>                    wait for EOF on stdin, then counter stream to stdout
 //! status: c<N> = exit(N), s<N> = kill(self, N)
 use std::io::{Read, Write};
 
@@ -126,6 +127,12 @@ pub fn main(args: &[String]) -> ! {
                 wait_eof();
             }
             finish(&args[4])
+        }
+        "gated_produce" => {
+            let nout: u64 = args[1].parse().unwrap();
+            wait_eof();
+            write_stream(1, nout, SALT_OUT, false);
+            finish(&args[2])
         }
         "exit" => {
             if args[1] == "1" {
